@@ -25,7 +25,7 @@ instance (ops : List Op) : Decidable (ScriptOk ops) := by unfold ScriptOk; exact
 /-- For every script, the property monitor accepts the whole trace of the model: every completed read carries
 exactly one datagram that was queued to that socket and not read before (its bytes truncated to the buffer, its
 length, its sender's address and port, in the buffer most recently designated); every write queues exactly one
-datagram to exactly the sockets the destination and the memberships admit; no getter differs from the kernel record
+datagram to exactly the sockets the destination and the memberships allow; no getter differs from the kernel record
 except `Loop()` before the first successful `SetLoop`; and the coupling invariant holds at the end. -/
 theorem C12_trace_accepted (ops : List Op) (hok : ScriptOk ops) :
     ∃ st, Sonic.Spec.Datagram.run Sonic.Spec.Datagram.init (Model.Datagram.run World.init ops) = .ok st
@@ -247,7 +247,7 @@ theorem C12_delivery (sc : List (MOp × Bool)) (g src : Ip) (hs : (membRun membI
     kAllow (membRun membInit sc).1 g src = passes (membRun membInit sc).2 g src :=
   kAllow_complete (membRun_R MembR.init sc) g src hs
 
-/-- `passes` spelled out: the group has a live membership whose filter admits the source. -/
+/-- `passes` spelled out: the group has a live membership whose filter lets the source pass. -/
 theorem passes_iff (a : Memb) (g src : Ip) :
     passes a g src = true ↔ ∃ f, a.filt g = some f ∧
       (match f with | .exclude l => src ∉ l | .include l => src ∈ l) := by
